@@ -30,6 +30,11 @@ def run(tier):
     nsend = 0
     for mtu_ok in modes:
         fs, sums, obs, stats = analyse(mtu_ok=mtu_ok)
+        if not mtu_ok:
+            # with the constant 1500-byte fallback the report loop of the Query cell would be unrolled concretely; its
+            # length-vs-count rule reads the reason for leaving the loop off the inductive summary (as in the port-MTU mode)
+            _fs, sq, _ob, _st = analyse(mtu_ok=False, regions=['topo.query'], force_summary=True)
+            sums['topo.query'] = sq['topo.query']
         tag = '' if mtu_ok else '|mtu-fallback'
         for region, lst in sums.items():
             for s in lst:
